@@ -60,6 +60,13 @@ func DoubleQuotesToBackTick(str string) (string, error) {
 				for ; i < len(str) && r != '"'; i++ {
 					r = rune(str[i])
 					if r == '"' {
+						// a doubled delimiter is a double quote of the identifier
+						if i+1 < len(str) && str[i+1] == '"' {
+							buffer.WriteByte('"')
+							i++
+							r = '0'
+							continue
+						}
 						buffer.WriteRune('`')
 						continue
 					}
@@ -68,7 +75,8 @@ func DoubleQuotesToBackTick(str string) (string, error) {
 							return "", fmt.Errorf("index out of range")
 						}
 						next := str[i+1]
-						if next == '"' {
+						// \" is a double quote and \\ a backslash of the identifier
+						if next == '"' || next == '\\' {
 							buffer.WriteByte(next)
 							i++
 							continue
